@@ -8,7 +8,7 @@ Local Open Scope Z_scope.
 
 (* range and acceptance of the harness validators (C05.Model.vld_of) *)
 Definition dom_of (k : vkind) (x : Z) : bool :=
-  match k with VAll => true | VInt | VCInt => (0 <=? x) && (x <? 100) end.
+  match k with VAll => true | VInt | VCInt => (0 <=? x) && (x <? 100) | VInc => (1 <=? x) && (x <? 91) end.
 Definition acc_of (k : vkind) (x : Z) : bool := match vld_of k x with Some _ => true | None => false end.
 
 (* ---------- lists ---------- *)
@@ -22,7 +22,8 @@ Fixpoint corr_list_hist (f : list Z -> lop -> obs) (i : Z) (s : list Z) (h : lis
 Definition corr_list (c : lcase) : list Z :=
   let '(vk, mn, mx, init, h) := c in corr_list_hist (list_step (vld_of vk) mn mx) 0 init h.
 Definition law_list (c : lcase) : list Z :=
-  let '(vk, mn, mx, init, h) := c in law_list_hist (dom_of vk) (acc_of vk) mn mx 0 init h.
+  let '(vk, mn, mx, init, h) := c in
+  start_ok (list_ok (dom_of vk) mn mx init) ++ law_list_hist (dom_of vk) (acc_of vk) mn mx 0 init h.
 
 (* ---------- sets ---------- *)
 Definition scase := (vkind * list Z * list (sop * sobs))%type.
@@ -52,7 +53,7 @@ Fixpoint corr_set_hist (vld : Z -> option Z) (i : Z) (s : list Z) (h : list (sop
   end.
 Definition corr_set (c : scase) : list Z := let '(vk, init, h) := c in corr_set_hist (vld_of vk) 0 init h.
 Definition law_set (c : scase) : list Z :=
-  let '(vk, init, h) := c in law_set_hist (dom_of vk) (acc_of vk) 0 init h.
+  let '(vk, init, h) := c in start_ok (forallb (dom_of vk) init) ++ law_set_hist (dom_of vk) (acc_of vk) 0 init h.
 
 (* ---------- dicts ---------- *)
 Definition dcase := (vkind * vkind * amap * list (dop * dobs))%type.
@@ -79,7 +80,8 @@ Definition corr_dict (c : dcase) : list Z :=
   let '(kk, vk, init, h) := c in corr_dict_hist (vld_of kk) (vld_of vk) 0 init h.
 Definition law_dict (c : dcase) : list Z :=
   let '(kk, vk, init, h) := c in
-  law_dict_hist (dom_of kk) (acc_of kk) (dom_of vk) (acc_of vk) 0 init h.
+  start_ok (dict_ok (dom_of kk) (dom_of vk) init)
+  ++ law_dict_hist (dom_of kk) (acc_of kk) (dom_of vk) (acc_of vk) 0 init h.
 
 (* ---------- List(List(T)) ---------- *)
 Definition ncase := (vkind * (Z * option Z) * (Z * option Z) * list (list Z) * list (nop * nobs))%type.
@@ -98,12 +100,26 @@ Definition corr_nested (c : ncase) : list Z :=
   corr_nested_hist (nested_step (vld_of vk) imn omn imx omx) 0 init h.
 Definition law_nested (c : ncase) : list Z :=
   let '(vk, (imn, imx), (omn, omx), init, h) := c in
-  law_nested_hist (dom_of vk) (acc_of vk) imn omn imx omx 0 init h.
+  start_ok (nested_ok (dom_of vk) imn omn imx omx init)
+  ++ law_nested_hist (dom_of vk) (acc_of vk) imn omn imx omx 0 init h.
 
-(* ---------- Dict(K, List(T)): law only ---------- *)
-(* keys are Str: the atoms 100..199 *)
+(* ---------- Dict(Str, List(T)) ---------- *)
+(* keys are Str: the atoms 100..199, accepted unchanged *)
 Definition kdom_str (x : Z) : bool := (100 <=? x) && (x <? 200).
-Definition ndcase := (vkind * vkind * (Z * option Z) * ndict * list ndobs)%type.
-Definition corr_ndict (c : ndcase) : list Z := [].
+Definition kv_str (x : Z) : option Z := if kdom_str x then Some x else None.
+Definition ndcase := (vkind * (Z * option Z) * ndict * list (ndop * ndobs))%type.
+
+Definition ndobs_diff (m i : ndobs) : list Z :=
+  chk 1 (out_eqb (nd_out m) (nd_out i)) ++ chk 2 (nd_eqb (nd_after m) (nd_after i))
+  ++ chk 3 (Nat.eqb (nd_events m) (nd_events i)).
+Fixpoint corr_ndict_hist (f : ndict -> ndop -> ndobs) (i : Z) (s : ndict) (h : list (ndop * ndobs)) : list Z :=
+  match h with
+  | [] => []
+  | (o, ob) :: r => lifted i (ndobs_diff (f s o) ob) ++ corr_ndict_hist f (i + 1) (nd_after ob) r
+  end.
+Definition corr_ndict (c : ndcase) : list Z :=
+  let '(vk, (imn, imx), init, h) := c in corr_ndict_hist (ndict_step kv_str (vld_of vk) imn imx) 0 init h.
 Definition law_ndict (c : ndcase) : list Z :=
-  let '(kk, vk, (imn, imx), init, h) := c in law_ndict_hist kdom_str (dom_of vk) imn imx 0 init h.
+  let '(vk, (imn, imx), init, h) := c in
+  start_ok (ndict_ok kdom_str (dom_of vk) imn imx init)
+  ++ law_ndict_hist kdom_str kdom_str (dom_of vk) (acc_of vk) imn imx 0 init h.
